@@ -153,9 +153,9 @@ func c08CmdWord(args []string) string {
 // ---------------------------------------------------------------------------
 // generator
 
-var c08BadNumbers = []string{"NaN", "nan", "Inf", "-Inf", "+inf", "infinity", "1e400", "-1e400", "1e308", "1e-400", "0x1p-2", "0x10", "1_000", "1,5", "1.2.3", "--1", "", "e", ".", "-", "+", "１２", "9999999999999999999999999999999999999999", "0.00000000000000000000000000000000000000001", "0.0000000000000004", "0.0000025000000000", "9007199254740.995", "1e", "1e+", "0e0", "-0"}
+var c08BadNumbers = []string{"NaN", "nan", "Inf", "-Inf", "+inf", "infinity", "1e400", "-1e400", "1e308", "1e-400", "0x1p-2", "0x10", "1_000", "1,5", "1.2.3", "--1", "", "e", ".", "-", "+", "１２", "9999999999999999999999999999999999999999", "0.00000000000000000000000000000000000000001", "0.0000000000000004", "0.0000025000000000", "9007199254740.995", "9999999.995", "9999999.999", "-999999.995", "-999999.999", "99999999999999999999", "1e", "1e+", "0e0", "-0"}
 
-var c08Dates = []string{"2021/01/01", "2021/01/10", "2021/13/45", "0000/00/00", "9999/12/31", "2021-01-01", "01/02/2021", "today", "yesterday", "last7", "last30", "tomorrow", "next week", "last monday", "3 days ago", "in 5 minutes", "december", "", " ", "garbage", "\x01", "2021/01/01 12:00", "-1", "1e9", "last 99999999999999999999 years", "🙂", strings.Repeat("9", 400)}
+var c08Dates = []string{"2021/01/01", "2021/01/10", "2021/13/45", "0000/00/00", "0001/01/01", "0001/01/08", "0001/01/02", "1969/12/31", "1970/01/01", "1677/09/21", "2262/04/12", "9999/12/31", "2021-01-01", "01/02/2021", "today", "yesterday", "last7", "last30", "tomorrow", "next week", "last monday", "3 days ago", "in 5 minutes", "december", "", " ", "garbage", "\x01", "2021/01/01 12:00", "-1", "1e9", "last 99999999999999999999 years", "🙂", strings.Repeat("9", 400)}
 
 var c08DateFormats = []string{"2006/01/02", "2006-01-02", "", " ", "%Y-%m-%d", "02.01.2006", "Monday", "2006", "15:04", "\x01", "2006/01/02/2006", strings.Repeat("2006", 100)}
 
